@@ -358,7 +358,15 @@ fn exec_bb_in(case: &BbCase, acmed: &std::path::Path, dir: &std::path::Path) -> 
 		let ok = coll.wait_until(&|r| r.iter().filter(|x| if faults_armed > 0 { post_ok(x) } else { bb::is_post(x) }).count() >= want + if faults_armed > 0 { 0 } else { failed_seen }, Duration::from_secs(90), &mut || daemon.state() != ProcState::Alive);
 		let run = bb::finish_run(&coll, daemon, if ok { bb::WaitEnd::Reached } else { bb::WaitEnd::Timeout });
 		if !ok {
-			return Outcome::fail("C11:renewal-incomplete", format!("{} of {} renewals finished; {}\n{}", run.records.iter().filter(|x| post_ok(x)).count().saturating_sub(posts_seen), run_targets.len(), d(), run.stderr_tail));
+			// what the CAs saw since the last judged run, and what they objected to
+			let mut seen = String::new();
+			for (e, ca) in cas.iter().enumerate() {
+				let snap = ca.snapshot();
+				let reqs: Vec<String> = snap.log.iter().skip(log_marks[e]).take(14).map(|l| format!("{}:{}", l.pos.name(), l.status)).collect();
+				let evs: Vec<String> = snap.events.iter().rev().take(3).map(|ev| format!("{}: {}", ev.code, ev.detail.chars().take(160).collect::<String>())).collect();
+				seen.push_str(&format!("\nCA {e}: requests {reqs:?}; last events {evs:?}; accounts {:?}", snap.accounts.iter().map(|a| (a.id, a.forgotten, a.key_changes)).collect::<Vec<_>>()));
+			}
+			return Outcome::fail("C11:renewal-incomplete", format!("{} of {} renewals finished; {}{seen}\n{}", run.records.iter().filter(|x| post_ok(x)).count().saturating_sub(posts_seen), run_targets.len(), d(), run.stderr_tail));
 		}
 		posts_seen = want;
 		failed_seen = run.records.iter().filter(|x| bb::is_post(x) && !post_ok(x)).count();
